@@ -62,6 +62,7 @@ enum Tpl {
     T_E_DTOR_ERR,       // runtime error inside a user destructor (known finding D13) - only when enabled
     T_QCYCLE,           // garbage cycle whose nodes own an object with a qubit and an echoing destructor (known finding D19) - only when enabled
     T_E_GENERIC_STATIC, // generic class whose static initialiser instantiates the same specialisation
+    T_DERIVED_LEAF,     // derived class that adds no reference field: its object owns another only through an inherited field
     T_E_RECURSE,        // bounded recursion holding an object (with destructor) per frame, optionally failing at the bottom
     T_COUNT
 };
@@ -71,7 +72,7 @@ inline const char* tplName(int t) {
                               "static_assign", "loop_alloc", "destroy", "cycle_drop", "virtual", "box", "ret_while_dtor", "churn", "churn_d",
                               "self_cycle_live", "show_all", "static_cycle", "drop_var", "keep_chain", "diamond_generic", "method_churn",
                               "e_div0", "e_mod0", "e_longmin_mod", "e_index", "e_null_field", "e_null_call", "e_deep", "e_voverload", "e_ctor_err",
-                              "e_fieldinit_err", "e_int_extreme", "e_literal_range", "e_cast", "e_neg_array", "e_destroy_twice", "e_super_call", "e_dtor_err", "qubit_owner_in_garbage_cycle", "e_generic_static", "e_recurse"};
+                              "e_fieldinit_err", "e_int_extreme", "e_literal_range", "e_cast", "e_neg_array", "e_destroy_twice", "e_super_call", "e_dtor_err", "qubit_owner_in_garbage_cycle", "e_generic_static", "derived_without_own_reference_fields", "e_recurse"};
     return (t >= 0 && t < T_COUNT) ? n[t] : "?";
 }
 
@@ -117,6 +118,10 @@ inline std::string preamble(const Plan& p) {
         "    public override function tag() -> int { return this.id + 1000; }\n"
         "    public function baseTag() -> int { return super.tag(); }\n"
         "    public destructor() -> void { echo(\"~M \" + this.id); }\n"
+        "}\n"
+        "class L extends N {\n"
+        "    public int w;\n"
+        "    public constructor(int id) -> L { super(id, F.churnMk(id + 1)); this.w = id; return this; }\n"
         "}\n"
         "class D {\n"
         "    public int k;\n"
@@ -303,6 +308,7 @@ inline std::string renderStmt(const Plan& p, const Stmt& st, int index) {
             std::string rel = st.b % 2 ? "    bdt" + I(index) + " = null;\n" : "    destroy bdt" + I(index) + ";\n";
             return "    " + cls + " bdt" + I(index) + " = new " + cls + "();\n" + rel + "    echo(\"after dtor err\");\n    echo(\"still running\");\n";
         }
+        case T_DERIVED_LEAF: return "    " + x + " = new L(" + I(id) + ");\n    echo(F.churn(" + I(k) + "));\n    echo(F.show(" + x + "));\n";
         case T_E_RECURSE: return "    echo(rec(" + I(3 + (st.a % 12) * 4) + ", " + I(st.b % 3 == 0 ? 1 : 0) + "));\n";
         case T_E_GENERIC_STATIC: {
             std::string ty = st.a % 2 ? "string" : "int";
@@ -353,7 +359,7 @@ inline Plan generate(sim::Rng& g, bool edge, bool allowDtorErr, bool allowQcycle
     int n = g.range(1, 9);
     static const int gcTpls[] = {T_ARG_BEFORE, T_ARG_AFTER, T_CTOR_ARG, T_SUPER_ARG, T_CHAIN, T_NESTED_RET, T_MEMBER_ASSIGN, T_EQ_OPERAND, T_CONCAT, T_STATIC_ASSIGN,
                                  T_LOOP_ALLOC, T_DESTROY, T_CYCLE_DROP, T_VIRTUAL, T_BOX, T_RET_WHILE_DTOR, T_CHURN, T_CHURN_D, T_SELF_CYCLE_LIVE, T_SHOW_ALL,
-                                 T_STATIC_CYCLE, T_DROP_VAR, T_KEEP_CHAIN, T_DIAMOND_GENERIC, T_METHOD_CHURN};
+                                 T_STATIC_CYCLE, T_DROP_VAR, T_KEEP_CHAIN, T_DIAMOND_GENERIC, T_METHOD_CHURN, T_DERIVED_LEAF};
     static const int edgeTpls[] = {T_E_DIV0, T_E_MOD0, T_E_LONGMIN_MOD, T_E_INDEX, T_E_NULL_FIELD, T_E_NULL_CALL, T_E_DEEP, T_E_VOVERLOAD, T_E_CTOR_ERR, T_E_FIELDINIT_ERR,
                                    T_E_INT_EXTREME, T_E_LITERAL_RANGE, T_E_CAST, T_E_NEG_ARRAY, T_E_DESTROY_TWICE, T_E_SUPER_CALL, T_E_GENERIC_STATIC, T_E_RECURSE};
     double edgeShare = edge ? 0.35 : 0.0;
